@@ -184,3 +184,38 @@ Definition check_all (recheck : bool) (total : nat) : bool :=
   && forallb in_code_bounds states
   (* closed under the transition relation *)
   && forallb (fun s => forallb (fun s' => PositiveSet.mem (code s') seen) (next_states recheck s)) states.
+
+(* ---- the same exploration without Exec's immediate deferred cancel: the
+   context is cancelled only by the environment transition, at any moment
+   (what a consumer driving the operator directly can observe) --------------- *)
+
+Fixpoint explore_raw (recheck : bool) (fuel : nat) (frontier : list st) (seen : PositiveSet.t) (visited : list st)
+  : list st * PositiveSet.t * bool :=
+  match fuel with
+  | O => (visited, seen, match frontier with [] => true | _ => false end)
+  | S f =>
+      match frontier with
+      | [] => (visited, seen, true)
+      | _ =>
+          let '(new, seen') := add_new (flat_map (steps recheck) frontier) seen in
+          explore_raw recheck f new seen' (new ++ visited)
+      end
+  end.
+
+Definition reachable3_raw (recheck : bool) (total : nat) : list st * PositiveSet.t * bool :=
+  explore_raw recheck 200 [init total] (PositiveSet.add (code (init total)) PositiveSet.empty) [init total].
+
+Definition quiescent_or_moving_raw (recheck : bool) (s : st) : bool :=
+  match steps recheck s with
+  | [] => finished_consumer s && pull_eqb (pull s) PDone && drain_eqb (drain s) DStopped
+  | _ => true
+  end.
+
+Definition check_all_raw (recheck : bool) (total : nat) : bool :=
+  let '(states, seen, complete) := reachable3_raw recheck total in
+  complete
+  && forallb (safe total) states
+  && forallb (quiescent_or_moving_raw recheck) states
+  && forallb within_capacity states
+  && forallb in_code_bounds states
+  && forallb (fun s => forallb (fun s' => PositiveSet.mem (code s') seen) (steps recheck s)) states.
